@@ -66,6 +66,9 @@ T = {
  "C19": (True, "E2", "exhaustive sweeps of the rectifiers over every value of the <=24-bit formats (thorough <=32-bit and every f32) and exhaustive enumeration of follower histories (inputs and setter calls) to depth 4/5 over 17 detector families x 36 time-constant pairs on the real Detector",
          "Rectifier functions and structs on bare samples and frames against |amplitude| / clamp references; follower: every history over next(5 letters)/set_attack(3)/set_release(3), each output checked against the one-pole formula evaluated from the observed previous output and the detected value, betweenness, zero-time exactness, monotone convergence on constant input, detect_envelope adaptor equivalence.",
          "Follower inputs and time constants come from finite alphabets; integer alphabets exclude the format minimum. Trusted: rustc/LLVM, f64 exp for the gain, the real detect component as source of the detected value.", "DESIGN.md §4 C19"),
+ "C07": (True, "E2", "bounded-exhaustive audit: every transition of the enumerated drivers (all depth<=2 adaptor programs, every ring-buffer raw state, component pipelines, every digraph on <=4 nodes with stock nodes) is executed on the real code between two samples of a counting global allocator",
+         "Allocator events (alloc + realloc + free, thread-local counters, self-tested) must be zero inside every bracket: each next()/is_exhausted()/iterator step of every adaptor tree of C04's quick space in 4 frame families, every Bounded/Fixed operation from every raw state (array, Vec, Box storage), sample/frame/slice/rectifier/RMS/envelope/interpolator/converter/window/oscillator operations, buffered, fork by_ref (by_rc after creation), 2nd/3rd process call on every digraph with <=3 nodes and (thorough: all, quick: every 7th) 4-node digraph with stock nodes; bus backlog bounded when pulled in step.",
+         "Coverage is the explicit catalogue written to the evidence file, at reduced bounds; 'arbitrarily long runs' rests on finite explored state spaces and periodicity (argued, not enumerated). One recorded finding (graph.regrow-on-different-graph, see known_findings.txt). Trusted: rustc/LLVM, the counting allocator.", "DESIGN.md §4 C07"),
 }
 ALL = ["C%02d" % i for i in range(1, 21)]
 
